@@ -100,6 +100,7 @@ type gen struct {
 	// freshRefs: reference terms known (syntactically) to denote objects allocated during this execution;
 	// writtenOld: components with a write that is not known to hit such an object only
 	freshRefs  map[string]bool
+	freshMemo  map[ssa.Value]int
 	freshWrite bool
 	writtenOld map[string]bool
 	writtenOldB map[*ssa.BasicBlock]map[string]bool // the same per block (loops)
